@@ -1,8 +1,10 @@
 (* Model/BackendGuard.v — C16.  The domain of the equivalence theorem, as a decidable predicate evaluated
-   along the reference (relational) execution.  Each excluded class is a place where the in-memory
-   backend, as transcribed in Model/BackendIndex.v, leaves the documented contract (Props/C16.v proves
-   each of them refuted by a witness); `first_bad` tells the harness where a sequence leaves the domain
-   and through which class.  Definitions only. *)
+   along the reference (relational) execution.
+   class 4 (and its other face, class 1) is the one place where the in-memory backend, as transcribed in
+   Model/BackendIndex.v, still leaves the documented contract: release_waiters(x) also forgets what x itself
+   waits for (Props/C16.v refutes it by a witness).  Classes 3 and 7 only bound the PROOF: no divergence is
+   known there and the correspondence covers them.  `first_bad` tells the harness where a sequence leaves
+   the domain and through which class.  Definitions only. *)
 From Coq Require Import List Bool Arith ZArith.
 Import ListNotations.
 From PV Require Import Model.Status Model.Blocking Model.Recovery Model.BackendOps Model.BackendRel.
@@ -15,8 +17,9 @@ Definition is_final_row (s : rel) (i : nat) : bool :=
 Fixpoint nodupb (l : list nat) : bool :=
   match l with [] => true | x :: r => negb (memb x r) && nodupb r end.
 
+(* ghost: the ids registered since the orchestrator was last purged *)
 Definition ever_after (ever : list nat) (o : op) : list nat :=
-  match o with Reg ids _ => ids ++ ever | _ => ever end.
+  match o with Reg ids _ => ids ++ ever | OPurge => [] | _ => ever end.
 
 Section G.
 Variable u : univ.
@@ -26,17 +29,17 @@ Variable trans : transf.
 Definition due (s : rel) (r : row) : bool :=
   match r_purge r with Some p => (p <=? now (rsh s) - purge_after c)%Z | None => false end.
 
-(* 0 = inside the domain; 1..6 = a class where the in-memory backend leaves the contract (refuted by witnesses);
-   7 = auto_purge with something to purge: the models agree there too (correspondence), but the simulation proof
-   does not cover the purge loop *)
+(* 0 = inside the domain;
+   1 = registering again an invocation that has been auto-purged (its stale own waits: class 4's other face);
+   3 = an invocation waiting for itself (outside C09's wait-graph invariant proof);
+   4 = release_waiters on an invocation that is not final (the remaining known finding);
+   7 = auto_purge with something to purge (the models agree there - correspondence - but the simulation proof
+       does not cover the purge loop) *)
 Definition guard (ever : list nat) (s : rel) (o : op) : nat :=
   match o with
-  | Reg ids _ => if nodupb ids && forallb (fun i => negb (memb i ever)) ids then 0 else 1   (* re-registration *)
-  | IncR i => if registered s i then 0 else 2                                                (* unknown id *)
-  | Wait w xs => if negb (memb w xs) && forallb (registered s) xs then 0 else 3              (* unknown awaited id *)
-  | Release x => if is_final_row s x then 0 else 4                                           (* release of a live invocation *)
-  | QFilter ids _ => if forallb (registered s) ids then 0 else 5                             (* unknown id *)
-  | SBPurge => 6                                                                             (* state backend purge *)
+  | Reg ids _ => if forallb (fun i => registered s i || negb (memb i ever)) ids then 0 else 1
+  | Wait w xs => if negb (memb w xs) then 0 else 3
+  | Release x => if is_final_row s x then 0 else 4
   | AutoPurge => if existsb (due s) (rows s) then 7 else 0
   | _ => 0
   end.
@@ -47,14 +50,13 @@ Fixpoint all_ok (ever : list nat) (s : rel) (ops : list op) : bool :=
   | o :: rest => Nat.eqb (guard ever s o) 0 && all_ok (ever_after ever o) (fst (rel_step u c trans s o)) rest
   end.
 
-(* (position of the first operation outside the domain, its class), classes equal to `ign` not counted
-   (ign = 7: where does the sequence first leave the CONTRACT-respecting part of the in-memory backend);
-   (length, 0) when all are inside *)
-Fixpoint first_bad (ign pos : nat) (ever : list nat) (s : rel) (ops : list op) : nat * nat :=
+(* (position of the first operation outside the domain, its class), classes in `ign` not counted
+   (ign = [3; 7]: where does the sequence first meet the remaining known finding); (length, 0) when none *)
+Fixpoint first_bad (ign : list nat) (pos : nat) (ever : list nat) (s : rel) (ops : list op) : nat * nat :=
   match ops with
   | [] => (pos, 0)
   | o :: rest => let k := guard ever s o in
-                 if Nat.eqb k 0 || Nat.eqb k ign
+                 if Nat.eqb k 0 || memb k ign
                  then first_bad ign (S pos) (ever_after ever o) (fst (rel_step u c trans s o)) rest
                  else (pos, k)
   end.
